@@ -1158,6 +1158,21 @@ func concCmd(args []string) error {
 			hang = true
 		}
 	}
+	if !hang && (len(want) == 0 || want["bigval"]) && !skip["setrange"] && !skip["get"] {
+		// in process (reply serialised right after the executor returns) and over loopback TCP
+		// through Manager.Handle; the second run appends to the first one's result file
+		st, err := runBigval(seed, tier, outdir, false)
+		if err == nil && st == "OK" {
+			st, err = runBigval(seed, tier, outdir, true)
+		}
+		if err != nil {
+			return err
+		}
+		fmt.Fprintf(sf, "PHASE bigval %s\n", st)
+		if st != "OK" {
+			hang = true
+		}
+	}
 	if hang {
 		os.Exit(4)
 	}
